@@ -56,7 +56,7 @@ class ExpSystem(System):
         cfgs = []
         quick = tier == "quick"
         heavy = prop in ("C05", "C06", "C19")
-        budget = (3500 if heavy else (25000 if prop in ("C01", "C14") else 40000)) if quick else (60000 if heavy else 300000)
+        budget = (3500 if heavy else (25000 if prop in ("C01", "C14") else 40000)) if quick else ((20000 if prop == "C19" else 60000) if heavy else (100000 if prop in ("C14", "C01") else 300000))
         es = (1, 2, 3) if quick else (1, 2, 3, 4)
         rates = (0.05, 0.3)
         strats = ("fnv", "md5")
